@@ -1267,8 +1267,10 @@ class DigitalWaveform(Generic[TDigitalState]):
         if array.dtype != self.dtype:
             raise create_datatype_mismatch_error("input array", array.dtype, "waveform", self.dtype)
 
+        array_1d = None
         if array.ndim == 1:
             array_signal_count = 1
+            array_1d = array
             array = array.reshape(len(array), 1)
         elif array.ndim == 2:
             array_signal_count = array.shape[1]
@@ -1304,6 +1306,7 @@ class DigitalWaveform(Generic[TDigitalState]):
             self._sample_count = sample_count
         else:
             self._data = array
+            self._data_1d = array_1d
             self._start_index = start_index
             self._sample_count = sample_count
 
